@@ -827,6 +827,24 @@ class Interp:
         mod = cls.__module__ or ''
         if not (mod == 'fim' or mod.startswith('fim.')):
             raise Unsupported(f'instantiation of unmodelled class {mod}.{cls.__qualname__}')
+        if isinstance(getattr(cls, '__fields__', None), tuple) and not isinstance(self.class_lookup(cls, '__init__')[0], types.FunctionType):
+            # recordclass record type: positional / keyword fields in declaration order
+            flds = list(cls.__fields__)
+            if len(args) > len(flds):
+                self.raise_(TypeError, 'too many arguments')
+            vals = dict(zip(flds, args))
+            for k, v in kwargs.items():
+                if k not in flds or k in vals:
+                    self.raise_(TypeError, f'unexpected or repeated argument {k}')
+                vals[k] = v
+            dflt = getattr(cls, '__defaults__', None) or ()
+            for i, f in enumerate(flds):
+                if f not in vals:
+                    j = i - (len(flds) - len(dflt))
+                    if j < 0:
+                        self.raise_(TypeError, f'missing argument {f}')
+                    vals[f] = self.lift(dflt[j])
+            return PObj(cls, {f: vals[f] for f in flds})
         import dataclasses
         init0, _ = self.class_lookup(cls, '__init__')
         if dataclasses.is_dataclass(cls) and isinstance(init0, types.FunctionType) and init0.__code__.co_filename == '<string>':
